@@ -424,8 +424,13 @@ class SymSeq:
         a, b = self.items(), seq_items(o)
         if len(a) != len(b):
             return False
+        for x, y in zip(a, b):
+            if isinstance(x, int) and isinstance(y, int) and x != y:
+                return False
         conj = []
         for x, y in zip(a, b):
+            if x is y:
+                continue
             r = x == y
             if r is False:
                 return False
